@@ -546,3 +546,26 @@ package raft
 
 //@ func (*snapshots).latest
 //@   ensures result0 == s.index && result1 == s.term
+
+// ---------------------------------------------------------------------------
+// shutdown of the state loop (C15): open connections are closed and a snapshot that is still being
+// taken is waited for, so that the task that asked for it is answered (by onSnapshotTaken, C15.reply-once)
+//@ ghost var gsnapHandled bool
+//@ view (*Raft).onSnapshotTaken at (*Raft).release
+//@   modifies r.snapTakenCh, gsnapHandled, task.result, task.greplied, log.Log.gprev, leader.removeLTE
+//@   ensures r.snapTakenCh == nil && gsnapHandled
+
+//@ pure ConnsOK(pool *connPool) bool = forall(p, base(pool.conns) <= p && p < base(pool.conns) + len(pool.conns) ==> raw(pool.conns, p) != nil && raw(pool.conns, p).rwc != nil)
+//@ func (*connPool).closeAll
+//@   requires [C15.pool-conns-valid] ConnsOK(pool)
+//@   modifies pool.conns
+//@   ensures [C15.pool-emptied] pool.conns == nil
+//@   loop 1 invariant -1 <= rangeindex && rangeindex < len(pool.conns) && ConnsOK(pool) && pool.conns == old(pool.conns)
+
+//@ func (*Raft).release
+//@   requires r.storage != nil && PoolsInv(r) && !gsnapHandled
+//@   requires [C15.pool-conns-valid] forall(k, has(r.connPools, k) ==> ConnsOK(r.connPools[k]))
+//@   modifies connPool.conns, r.snapTakenCh, gsnapHandled, task.result, task.greplied, log.Log.gprev, leader.removeLTE
+//@   ensures [C15.pending-snapshot-answered] old(r.snapTakenCh != nil) ==> gsnapHandled && r.snapTakenCh == nil
+//@   ensures [C15.no-snapshot-nothing-to-wait-for] old(r.snapTakenCh == nil) ==> !gsnapHandled
+//@   loop 1 invariant r.snapTakenCh == old(r.snapTakenCh) && !gsnapHandled && PoolsInv(r) && forall(k, has(r.connPools, k) && !visited(k) ==> ConnsOK(r.connPools[k]))
